@@ -482,6 +482,137 @@ def gen_file_case(rng):
     return {"kind": "file", "mode": mode, "args": args, "content": content}
 
 
+# ---- malformed files: rows of unequal length in every shape -----------------------------------------
+# The property: "rows of unequal length make it exit non-zero".  A length vector (l_0 .. l_{n-1}) = numbers of
+# parsable tokens on the non-empty lines; it is ragged when not all l_i are equal.  Shapes aimed at the ways a
+# length test can be weakened: the deviations cancel out (sum = n * l_0: an aggregate test passes), only the
+# first / last / one middle row deviates, only shorter / only longer rows, a permutation of a multiset of
+# lengths, a row without any number (length 0, realised by a garbage-only line), two blocks of different width.
+RAGGED_KINDS = ["compensating", "compensating", "compensating", "first_short", "first_long", "last_short",
+                "last_long", "middle", "permutation", "random", "zero_row", "two_blocks", "only_shorter",
+                "only_longer", "compensating_mean"]
+
+
+def ragged(lengths):
+    return any(l != lengths[0] for l in lengths)
+
+
+def compensating_vector(rng, n, c):
+    """l_0 = c, the others deviate but sum to (n - 1) * c"""
+    ls = [c] * n
+    for _ in range(rng.choice([1, 1, 2, 3])):
+        i, j = rng.sample(range(1, n), 2)
+        k = rng.randint(1, max(1, ls[i]))
+        if ls[i] - k >= 0:
+            ls[i] -= k
+            ls[j] += k
+    return ls
+
+
+def gen_length_vector(rng):
+    for _ in range(100):
+        kind = rng.choice(RAGGED_KINDS)
+        n, c = rng.choice([2, 3, 3, 4, 5, 6, 8]), rng.choice([1, 2, 3, 3, 4, 5])
+        ls = [c] * n
+        if kind == "compensating" and n >= 3:
+            ls = compensating_vector(rng, n, c)
+        elif kind == "compensating_mean" and n >= 3:
+            # the mean is the common length of the OTHER rows, the first row deviates too
+            ls = compensating_vector(rng, n, c)
+            rng.shuffle(ls)
+        elif kind == "first_short" and c > 1:
+            ls[0] = c - rng.randint(1, c - 1)
+        elif kind == "first_long":
+            ls[0] = c + rng.randint(1, 2)
+        elif kind == "last_short":
+            ls[-1] = c - rng.randint(1, c)
+        elif kind == "last_long":
+            ls[-1] = c + rng.randint(1, 2)
+        elif kind == "middle" and n >= 3:
+            ls[rng.randrange(1, n - 1)] = max(0, c + rng.choice([-2, -1, 1, 2]))
+        elif kind == "permutation":
+            ls = [c] * (n - 2) + [c + 1, max(0, c - 1)] if rng.random() < 0.6 else [c + (i % 3) - 1 for i in range(n)]
+            ls = [max(0, l) for l in ls]
+            rng.shuffle(ls)
+        elif kind == "random":
+            ls = [rng.randint(0, c + 1) for _ in range(n)]
+        elif kind == "zero_row":
+            ls[rng.randrange(n)] = 0
+        elif kind == "two_blocks" and n >= 3:
+            k = rng.randrange(1, n)
+            ls = [c] * k + [c + rng.choice([-1, 1, 2])] * (n - k)
+            ls = [max(0, l) for l in ls]
+        elif kind == "only_shorter":
+            ls = [c] + [max(0, c - rng.choice([0, 0, 1, 2])) for _ in range(n - 1)]
+        elif kind == "only_longer":
+            ls = [c] + [c + rng.choice([0, 0, 1, 2]) for _ in range(n - 1)]
+        if ragged(ls):
+            return kind, ls
+    return "first_long", [3, 2]
+
+
+def content_of_lengths(rng, ls, d, garbage=0.0, eol="\n", final_nl=True, blank=0.0):
+    """a file whose i-th non-empty line has ls[i] parsable tokens; every number distinct, so that a
+    re-wrapped matrix differs from the one the lines denote"""
+    lines, v = [], 1
+    for l in ls:
+        toks = []
+        for _ in range(l):
+            toks.append(str(v) if rng.random() < 0.75 else "%g" % (v + 0.5))
+            v += 1
+        junk = [g for g in ("x", "abc", "x1", "e5") if d not in g]
+        if l == 0:
+            toks = [rng.choice(junk)]
+        elif rng.random() < garbage:
+            toks.insert(rng.randrange(len(toks) + 1), rng.choice(junk))
+        lines.append(d.join(toks))
+        if rng.random() < blank:
+            lines.append("")
+    return eol.join(lines) + (eol if final_nl else "")
+
+
+RAGGED_METHODS = ["passthru", "passthru", "passthru", "pca", "mds", "kpca"]
+
+
+def ragged_case(rng, kind, ls, plain=False):
+    d = "," if plain else rng.choice(DELIMS)
+    content = content_of_lengths(
+        rng, ls, d, garbage=0.0 if plain else rng.choice([0.0, 0.0, 0.3]),
+        eol="\n" if plain else rng.choice(["\n", "\n", "\n", "\r\n"]),
+        final_nl=True if plain else rng.random() < 0.8, blank=0.0 if plain else rng.choice([0.0, 0.0, 0.2]))
+    m = "passthru" if plain else rng.choice(RAGGED_METHODS)
+    flags = [] if plain else [f for f in ("transpose-input", "transpose-output") if rng.random() < 0.3]
+    if m != "passthru" and not plain and rng.random() < 0.3:
+        flags.append("precompute")
+    args = [("m", m), ("td", "1")] + ([("d", d)] if d != "," else []) + [(f, None) for f in flags]
+    return {"kind": "file", "mode": "ragged:" + kind, "lengths": list(ls), "args": args, "content": content}
+
+
+def gen_ragged_case(rng):
+    kind, ls = gen_length_vector(rng)
+    return ragged_case(rng, kind, ls)
+
+
+def all_length_vectors(nmax, lmax, only_sum_fits=False):
+    """every ragged length vector with 2..nmax rows of 0..lmax values (model-guided small exhaustive
+    enumeration: the domain on which any weakened length test must differ from the per-row test)"""
+    import itertools
+    out = []
+    for n in range(2, nmax + 1):
+        for ls in itertools.product(range(lmax + 1), repeat=n):
+            if ragged(ls) and (not only_sum_fits or sum(ls) == n * ls[0]):
+                out.append(list(ls))
+    return out
+
+
+def gen_ragged_exhaustive(rng, big):
+    vs = all_length_vectors(4 if big else 3, 3)
+    if not big:
+        vs += [v for v in all_length_vectors(4, 3, only_sum_fits=True) if len(v) == 4]
+        vs += [v for v in all_length_vectors(5, 2, only_sum_fits=True) if len(v) == 5]
+    return [ragged_case(rng, "exhaustive", v, plain=True) for v in vs]
+
+
 def py_read(content, d):
     """independent reading of 'one row per line' (the documented meaning; final newline optional)"""
     rows = []
@@ -747,7 +878,16 @@ class Checker:
                                                           want[:120], (res["output"] or "")[:120]), signature=sig)
             # model of the current source against the tool
             mo = mo.strip()
-            if mo.startswith("FAIL"):
+            meth = [v for n, v in args if n in ("m", "method")]
+            if mo == "STUCK":
+                # the translator could not name the shape of read_data (or a table is unreadable): the
+                # obligations about it are open (reported once by the Coq build); nothing to compare
+                ctx.unshown("the model cannot interpret the tables generated from src/cli (cli_main is Stuck)")
+            elif meth and meth[-1] != "passthru":
+                # only the pass-through library is modelled: compare the exit status of the reading phase
+                if mo.startswith("FAIL") and res["rc"] == 0:
+                    ctx.mismatch(c, "model: %s, tool: exit 0" % mo)
+            elif mo.startswith("FAIL"):
                 if (int(mo.split()[1]) != 0) != (res["rc"] != 0):
                     ctx.mismatch(c, "model: %s, tool: exit %d" % (mo, res["rc"]))
             elif mo.startswith("DONE"):
